@@ -57,3 +57,12 @@ check("C18", "def-use rules over PrattParser.parse_expr (table reads, dominance 
       "Completeness of the rule set for every token stream is not proved.", "§4 C18")
 for _p in ("C10", "C18"):
     NOT_APPLICABLE.pop(_p, None)
+
+check("C12", "literal-table comparison as code-point interval sets; sibling pattern parity; pattern-fragment scan; linear-arithmetic facts of the class merger; symbolic linear cursor analysis of the escape decoder",
+      "Static: ASCII_RULE_MAP/NEWLINE == pest's built-ins as exact code-point sets; Range and CIString compile the same pattern and flags for parse() and generate(), ranges case-sensitively; grammar-derived characters reach patterns only through re.escape; case variants enter a class only under a length-1 guard; the merger's set-preserving arithmetic facts; escape table values; on every returning path of the decoder the returned index is the last consumed position and the caller resumes one past it.",
+      "The regex engine's Unicode tables and class parsing are trusted; case-insensitive matching of non-ASCII input is outside the property; the merger facts are necessary conditions (the sort/merge loop's full correctness is not proved).", "§4 C12")
+check("C17", "literal precedence tables + pairing rule (loop test vs recursion bound) on the example climbers; rule-nesting/shape analysis of the grammar-encoded calculator; regular-language inclusion of RFC 8259 number/string in the JSON grammars' lexical rules",
+      "Static, necessary conditions only: the three calculators induce the same operator order (add,sub < mul,div < pow < neg < fac) and associativity (+ - * / left, ^ right) — for the hand-written climber the effective associativity is derived from its code; RFC 8259 number and string are contained in both JSON grammars' lexical rules (witness on failure); value alternatives, SOI/EOI anchoring, ws set.",
+      "Tree mirroring of json.loads, prefix rejection on concrete documents and evaluated values are run-time results and are NOT decided.", "§4 C17")
+for _p in ("C12", "C17"):
+    NOT_APPLICABLE.pop(_p, None)
